@@ -5,6 +5,11 @@ unsigned g_adds, g_removes, g_recycles, g_allocs; node_address g_remove_arg, g_r
 node_address g_alloc_result;
 int g_next, g_up, g_down;              /* what the hole index answers (assumed shape, see the contracts) */
 size_t ghost_g;                        /* a slot of some live chunk */
+node_address g_refiled;                /* ghost: the hole addToGrid was last called on (its pointer slots were overwritten) */
+/* ASSUMED list shape, at the point where a link is read from the arena: the successor in the large list is 0 or another hole, disjoint from its predecessor -
+ * unless the predecessor has just been re-filed: then its links are whatever addToGrid wrote */
+#define VERIF_LINK_OF(curr, next) __CPROVER_assume((size_t)(curr) == g_refiled || ((next) >= 0 && ((next) == 0 || (HOLE_OK(self, next) && \
+    ((size_t)(next) + TAGSIZE(self, next) <= (size_t)(curr) || (size_t)(next) >= (size_t)(curr) + TAGSIZE(self, curr))))))
 
 #define MSBINT ((int)0x80000000)
 #define TAGGED(m, k)   (((m)->data[k] & MSBINT) != 0)
@@ -37,10 +42,10 @@ __CPROVER_requires(self != NULL) REQUIRES(row_below_is_asked_of_a_hole, HOLE_OK(
 __CPROVER_assigns() __CPROVER_ensures(__CPROVER_return_value == g_down && g_down >= 0 && GRID_OR_0(self, g_down));
 void original_grid__addToGrid(struct original_grid *self, node_address h)
 __CPROVER_requires(self != NULL) REQUIRES(a_hole_is_filed, HOLE_OK(self, h))
-__CPROVER_assigns(g_adds, self->large_holes, self->holes_bottom, self->holes_top, self->holes_current)
+__CPROVER_assigns(g_adds, g_refiled, self->large_holes, self->holes_bottom, self->holes_top, self->holes_current)
 __CPROVER_assigns(self->data[h + 1], self->data[h + 2], self->data[h + 3])
 /* classification with the maximum request the manager knows NOW (orig_grid.cc isLargeHole) */
-__CPROVER_ensures(g_adds == __CPROVER_old(g_adds) + 1)
+__CPROVER_ensures(g_adds == __CPROVER_old(g_adds) + 1 && g_refiled == h)
 __CPROVER_ensures(TAGSIZE(self, h) > self->max_request ? (size_t)self->large_holes == h : self->large_holes == __CPROVER_old(self->large_holes))
 /* ASSUMED: filing keeps the heads what they are - 0 or holes of their kind */
 __CPROVER_ensures(self->holes_bottom >= 0 && self->holes_current >= 0 && self->large_holes >= 0 && GRID_OR_0(self, self->holes_bottom) && GRID_OR_0(self, self->holes_current))
@@ -64,13 +69,13 @@ node_address original_grid__requestChunk(struct original_grid *self, size_t *num
 OG_REQ(self)
 __CPROVER_requires(__CPROVER_is_fresh(numSlots, sizeof(size_t)) && 1 <= *numSlots && *numSlots < (1ul << 28) && self->last_used_slot < (1ul << 30) && self->max_request < (1ul << 28))
 WITNESS(original_grid__requestChunk, g_request == *numSlots)
-__CPROVER_requires(g_request == *numSlots)
+__CPROVER_requires(g_request == *numSlots && g_refiled == 0)
 /* ASSUMED shape of the hole index at entry: heads are 0 or holes; every hole in the large list is larger than every request so far */
 __CPROVER_requires(self->large_holes >= 0 && self->holes_bottom >= 0 && self->holes_current >= 0 && self->holes_top >= 0)
 __CPROVER_requires(HOLE_OR_0(self, self->large_holes) && GRID_OR_0(self, self->holes_bottom) && GRID_OR_0(self, self->holes_current))
 __CPROVER_requires(self->large_holes == 0 || TAGSIZE(self, self->large_holes) > self->max_request)
 __CPROVER_requires(g_adds < 1000000 && g_removes < 1000000 && g_recycles < 1000000 && g_allocs < 1000000)
-__CPROVER_assigns(*numSlots, self->max_request, self->large_holes, self->holes_bottom, self->holes_top, self->holes_current, g_adds, g_removes, g_remove_arg, g_recycles, g_recycle_at, g_recycle_n, g_allocs)
+__CPROVER_assigns(g_refiled, *numSlots, self->max_request, self->large_holes, self->holes_bottom, self->holes_top, self->holes_current, g_adds, g_removes, g_remove_arg, g_recycles, g_recycle_at, g_recycle_n, g_allocs)
 __CPROVER_assigns(__CPROVER_object_whole(self->data))
 ENSURES(the_manager_remembers_the_largest_request, self->max_request >= g_request && self->max_request >= __CPROVER_old(self->max_request))
 ENSURES(failure_is_reported_as_zero_slots, __CPROVER_return_value != 0 || *numSlots == 0)
